@@ -34,12 +34,11 @@ TRUSTED_BASE = [
 ]
 MANIFEST = {
     "technique": "Lean 4 proof (simulation between the lexer runs under two delimiter sets; invariant of an LRU-bounded memo over all call histories; refinement of the cached process to a cache-free one) + translator-generated obligations on cache keys and re.escape flow + differential correspondence and rendering equality under random delimiter sets and interleaved environments",
-    "text": "tokenize_delim_independent: for every piece list and any two delimiter sets the token streams agree up to positions (the parser's input is delimiter-free). memo_transparent / memo_bounded: an lru_cache of any size returns f(k) on every call of every history and never exceeds maxsize, provided equal keys give equal results; memo_stale_counterexample shows the proviso is needed. env_isolation: the process with the 128-entry lexer and parser caches computes every parse from the asked environment's own delimiters and current tags/filters/tolerance, for every interleaving of creations, mutations and parses. lexer_cache_key_complete, all_delims_escaped, lex_patterns_pinned, parser_cache_key_identity, implicit_env_key_complete: the provisos hold of this tree (re-decided from the source on every run).",
-    "note": "Trusted: Lean kernel, the hand models, the AST emitter, the harness; Python `re` matching of the assembled source is measured, not proved. Known findings: a tag_end_string that starts with a word character (or '#') is mis-lexed when a tag name is written directly in front of it; a comment_start_string such as '{if' yields the liquid-tag comment marker 'if'.",
+    "text": "tokenize_delim_independent: for every piece list and any two delimiter sets the token streams agree up to positions (the parser's input is delimiter-free). memo_transparent / memo_bounded: an lru_cache of any size returns f(k) on every call of every history and never exceeds maxsize, provided equal keys give equal results; memo_stale_counterexample shows the proviso is needed. env_isolation: the process with the 128-entry lexer and parser caches computes every parse from the asked environment's own delimiters and current tags/filters/tolerance, for every interleaving of creations, mutations and parses. implicit_env_isolation / implicit_env_bounded: liquid.Template() gives the k-th call an environment built from the k-th call's arguments, for every interleaving and with evictions from its 10-entry cache. lexer_cache_key_complete, all_delims_escaped, lex_patterns_pinned, parser_cache_key_identity, implicit_env_key_complete: the provisos hold of this tree (re-decided from the source on every run).",
+    "note": "Trusted: Lean kernel, the hand models, the AST emitter, the harness; Python `re` matching of the assembled source is measured, not proved. Fixed in the tree: a tag_end_string that starts with a word character (or '#') directly after a tag name. Also fixed: a liquid-tag comment marker that starts with a word character ('a#'). Known finding: comment_start_string '{if' yields the marker 'if'.",
 }
 ASSUMPTIONS = [
     "non-collision = no delimiter string occurs in the assembled source except where the rewriting wrote it (raw/doc bodies may contain anything but their own end tag), no delimiter contains another, no white space in delimiters",
-    "tag_end_string starting with a word character or '#' directly after a tag name is outside the regular streams (known finding lex|word-char-tag-end|adjacent-name)",
     "inline comments inside {% liquid %} use the environment's marker (comment_start_string without '{', or '#'): rewriting a template rewrites those markers too",
     "an end delimiter that starts with '-' and directly follows its start delimiter (empty markup such as '{{' + '-}') is read as white-space control by the text look-ahead: such delimiter sets count as colliding with the '-' syntax (delim_pieces.dash_end_adjacent)",
     "generated text stays below U+0100",
@@ -81,7 +80,7 @@ class LexStream(Stream):
 
         rng = ctx.rng_for("lex")
         out = []
-        for _ in range(ctx.scale(1200, 10000)):
+        for _ in range(ctx.scale(1200, 40000)):
             comments = rng.chance(40)
             ps = gen_pieces(rng, comments)
             if not ps:
@@ -204,7 +203,7 @@ class RenderStream(Stream):
     def cases(self, ctx):
         rng = ctx.rng_for("render")
         out = []
-        for _ in range(ctx.scale(500, 4000)):
+        for _ in range(ctx.scale(500, 12000)):
             c = gen_render_case(rng)
             if c is not None:
                 out.append(c)
@@ -484,7 +483,7 @@ class InterleaveStream(Stream):
     def cases(self, ctx):
         rng = ctx.rng_for("interleave")
         out = []
-        for _ in range(ctx.scale(4, 16)):
+        for _ in range(ctx.scale(4, 40)):
             n = rng.range(160, 185) if rng.chance(75) else rng.range(3, 20)
             specs = gen_env_specs(rng, n)
             sched = []
@@ -655,7 +654,7 @@ class KeyClashStream(InterleaveStream):
     def cases(self, ctx):
         rng = ctx.rng_for("keyclash")
         bases = [list(b) for b in CLASH_BASES]
-        for _ in range(ctx.scale(6, 40)):
+        for _ in range(ctx.scale(6, 120)):
             d = dp.gen_delims(rng, IL_TEMPLATES, rng.chance(40), tries=200)
             if d is not None and all(len(x) >= 2 for x in d if x):
                 bases.append(d)
@@ -702,7 +701,7 @@ class ImplicitStream(Stream):
     def cases(self, ctx):
         rng = ctx.rng_for("implicit")
         out = []
-        for _ in range(ctx.scale(6, 40)):
+        for _ in range(ctx.scale(6, 120)):
             n = rng.range(11, 16)
             cfgs = []
             for _ in range(n):
@@ -757,7 +756,7 @@ class MemoStream(Stream):
     def cases(self, ctx):
         rng = ctx.rng_for("memo")
         out = []
-        for _ in range(ctx.scale(150, 1000)):
+        for _ in range(ctx.scale(150, 5000)):
             m = rng.choice([0, 1, 2, 3, 5, 10, 128])
             nk = rng.range(1, 2 * m + 4) if m < 100 else rng.range(100, 200)
             out.append({"maxsize": m, "keys": [rng.below(nk) for _ in range(rng.range(1, 40) if m < 100 else rng.range(200, 500))]})
